@@ -19,6 +19,18 @@ pub fn assemble_dc(
     local: bool,
     extra_imports: &str,
 ) -> String {
+    assemble_dc_opts(g, enc, second_param, local, extra_imports, "")
+}
+
+/// `options`: text appended after the setup argument, e.g. `, { props: ["a"] }`
+pub fn assemble_dc_opts(
+    g: &mut TypeGen,
+    enc: &str,
+    second_param: &str,
+    local: bool,
+    extra_imports: &str,
+    options: &str,
+) -> String {
     let setup_form = g.c.pick(4);
     let setup = match setup_form {
         0 => format!("(props: {enc}{second_param}) => () => null"),
@@ -49,7 +61,7 @@ pub fn assemble_dc(
         for d in &before {
             s.push_str(&format!("  {}\n", d.trim_start_matches("export ")));
         }
-        s.push_str(&format!("  const r = defineComponent({setup});\n"));
+        s.push_str(&format!("  const r = defineComponent({setup}{options});\n"));
         for d in &after {
             s.push_str(&format!("  {}\n", d.trim_start_matches("export ")));
         }
@@ -59,7 +71,7 @@ pub fn assemble_dc(
             s.push_str(d);
             s.push('\n');
         }
-        s.push_str(&format!("export const Comp = defineComponent({setup});\n"));
+        s.push_str(&format!("export const Comp = defineComponent({setup}{options});\n"));
         for d in &after {
             s.push_str(d);
             s.push('\n');
